@@ -164,7 +164,7 @@ class LiteDRAMAXI2NativeW(Module):
                 NextValue(rmw_cmd_done,  0),
                 NextValue(rmw_data_done, 0),
                 # Detect partial data and initiate a RMW access.
-                If(axi.w.valid & (axi.w.strb != (2**len(axi.w.strb) - 1)),
+                If(aw.valid & axi.w.valid & (axi.w.strb != (2**len(axi.w.strb) - 1)),
                     # Before issuing the RMW sequence, we must ensure that all pending writes/reads
                     # access have been done, so issue a request and wait for grant.
                     self.rmw_request.eq(1),
